@@ -30,6 +30,7 @@ CONSTANT Deviation    \* "none", or a named deviation of the design (non-vacuity
                       \*   "pop_drains"    Pop hands out items of a closed queue
                       \*   "req_first"     the request lane is served before the control lane
                       \*   "close_one"     (QueueWake) Close wakes one blocked consumer only
+                      \*   "prod_sleeps"   (QueueWake) a producer blocked in AddAnyway does not notice room
                       \*   "signal_if_first" (QueueWake) SyncQueue.Push signals only when the buffer was empty
 
 VARIABLES
